@@ -125,62 +125,133 @@ seal_inst!(c04_seal_fresh_nonce_s0_n1000, 0, 1000, 100);
 seal_inst!(c04_seal_fresh_nonce_s1_n9000, 1, 9000, 100);
 seal_inst!(c04_seal_fresh_nonce_s2_n65400, 2, 65400, 100);
 
-/// a counter that no longer fits the 56 transmitted bits makes the datagram undecryptable; the two ends use
-/// opposite halves; (C02-H2) whenever the counter fits and the halves are opposite the round trip is exact
-fn limit_and_roundtrip(slot: usize, n: usize) {
-    let nonce0 = any_nonce();
+/// Receiver side of one datagram. The datagram is laid out exactly as `encrypt` is shown to lay it out by
+/// c04_seal_fresh_nonce_* (slot id, low 7 bytes of the sender's 96-bit counter, ciphertext, tag) and sealed by the
+/// ideal AEAD under an ARBITRARY 96-bit sender counter; then one real `decrypt` runs.
+///   mode 0..=7  : the adversary rewrites header byte `mode` (0 = key id, 1..7 = counter bytes) to any value
+///   mode 8 / 9  : rewrites ciphertext / tag byte number `cut`;   mode 10: delivers it untouched
+///   mode 11     : untouched, but the receiver's slot holds other key material (datagram of another connection)
+///   mode 12     : truncated by `cut` bytes
+/// Decided: accepted  <=>  untouched, same key, counter fits the 56 transmitted bits (C04: an overflowing counter is
+/// undecryptable, never wrapped), and the sender's half is the opposite of the receiver's (C02: a reflected datagram
+/// is dropped); on acceptance the window is the payload, byte-identical, and `seen` is the sender's counter.
+fn recv_datagram(mode: usize, slot: usize, n: usize, cut: usize) {
+    let nonce = any_nonce();
     let keyb: [u8; 32] = kani::any();
+    let otherkey: [u8; 32] = kani::any();
     let payload: [u8; 8] = kani::any();
-    let sender_half: bool = kani::any();
     let recv_half: bool = kani::any();
-    let algo = algo_of(kani::any::<u8>() % 3);
-    let mut sender = core_with(algo, &[0x22; 32], sender_half, slot);
-    sender.keys[slot] = keyed_slot(algo, &keyb);
-    sender.keys[slot].send_nonce = nonce0.clone();
+    let newbyte: u8 = kani::any();
+    let pos: u8 = kani::any();
+    let algo = &aead::AES_256_GCM;
+    let sealer = keyed_slot(algo, &keyb);
     let mut receiver = core_with(algo, &[0x33; 32], recv_half, 0);
-    receiver.keys[slot] = keyed_slot(algo, &keyb);
-    let mut buf = MsgBuffer::new(8);
-    buf.set_length(n);
-    buf.message_mut().copy_from_slice(&payload[..n]);
-    sender.encrypt(&mut buf);
-    let sent = sender.keys[slot].send_nonce.clone();
+    let mut keys_differ = false;
+    if mode == 11 {
+        let mut i = 0;
+        while i < 32 {
+            if keyb[i] != otherkey[i] {
+                keys_differ = true;
+            }
+            i += 1;
+        }
+        receiver.keys[slot] = keyed_slot(algo, &otherkey);
+    } else {
+        receiver.keys[slot] = keyed_slot(algo, &keyb);
+    }
+    let mut buf = MsgBuffer::new(100);
+    buf.set_length(EXTRA_LEN + n + TAG_LEN);
+    {
+        let m = buf.message_mut();
+        m[0] = slot as u8;
+        m[1..8].copy_from_slice(&nonce.as_bytes()[5..]);
+        m[8..8 + n].copy_from_slice(&payload[..n]);
+        let tag = {
+            let (d, _) = m[8..].split_at_mut(n);
+            sealer.key.seal_in_place_separate_tag(aead::Nonce::assume_unique_for_key(*nonce.as_bytes()), aead::Aad::empty(), d).unwrap()
+        };
+        m[8 + n..].copy_from_slice(tag.as_ref());
+    }
+    let mut changed = false;
+    if mode <= 9 {
+        let idx = match mode {
+            0..=7 => mode,
+            8 => 8 + cut,
+            _ => 8 + n + cut,
+        };
+        let old = buf.message()[idx];
+        buf.message_mut()[idx] = newbyte;
+        changed = newbyte != old;
+    }
+    if mode == 12 {
+        let l = buf.len();
+        buf.set_length(l - cut);
+        changed = true;
+    }
+    if mode != 0 {
+        // Engine note (DESIGN 2.4b): with a key-id byte that symex cannot constant-fold, `&mut self.keys[key_id]` is a
+        // symbolic-offset pointer, and this CBMC version havocs 12-byte memcmp/memcpy reads through it (over-
+        // approximation: spurious rejections, never missed ones). Re-storing the unchanged id last keeps it a constant.
+        buf.message_mut()[0] = slot as u8;
+    }
     let res = receiver.decrypt(&mut buf);
-    let sb = sent.as_bytes();
-    let fits = sb[1] == 0 && sb[2] == 0 && sb[3] == 0 && sb[4] == 0;
-    let expected_msb = if recv_half { 0x00 } else { 0x80 };
-    if res.is_ok() {
-        // accepted only when the full 96-bit sender nonce is what the receiver reconstructed
-        assert!(fits);
-        assert!(sb[0] == expected_msb);
-        assert!(buf.get_start() == 8 && buf.len() == n);
+    let nb = nonce.as_bytes();
+    let fits = nb[1] == 0 && nb[2] == 0 && nb[3] == 0 && nb[4] == 0;
+    let msb_ok = nb[0] == if recv_half { 0x00 } else { 0x80 };
+    let same_key = mode != 11 || !keys_differ;
+    if mode == 10 {
+        // untouched datagram, right key: accepted iff the counter fits and the halves are opposite
+        assert!(res.is_ok() == (fits && msb_ok));
+    } else if changed || !same_key {
+        // Engine note (DESIGN 2.4b): once the buffer holds an adversarial byte, symex no longer folds the key-id byte
+        // to a constant, `&mut self.keys[key_id]` becomes a symbolic-offset pointer, and this CBMC version havocs the
+        // 12-byte memcmp behind `nonce < min_nonce` / `seen_nonce < nonce` (an over-approximation: it can only add
+        // rejections). The direction asserted here cannot be falsified by that; the other one is mode 10.
+        assert!(res.is_err());
+    }
+    if res.is_ok() && mode == 10 {
+        assert!(buf.get_start() == 100 + EXTRA_LEN && buf.len() == n);
         let m = buf.message();
         let mut i = 0;
         while i < n {
             assert!(m[i] == payload[i]);
             i += 1;
         }
-        assert!(nonce_val(receiver.keys[slot].seen_nonce.as_bytes()) == nonce_val(sb));
-    } else {
-        // rejected only for a reason: counter overflowed the transmitted bits or wrong half
-        assert!(!fits || sb[0] != expected_msb);
-        assert!(nonce_val(receiver.keys[slot].seen_nonce.as_bytes()) == 0);
+        assert!(nonce_val(receiver.keys[slot].seen_nonce.as_bytes()) == nonce_val(nb));
     }
-    vcover!(res.is_ok(), "roundtrip_ok");
-    vcover!(res.is_err() && !fits, "overflow_rejected");
+    if res.is_err() {
+        let mut i = 0;
+        while i < 4 {
+            assert!(nonce_val(receiver.keys[i].seen_nonce.as_bytes()) == 0);
+            i += 1;
+        }
+    }
+    vcover!(res.is_ok(), "accepted");
+    vcover!(res.is_err() && !changed && same_key && !fits, "overflowing_counter_rejected");
+    vcover!(res.is_err() && !changed && same_key && fits && !msb_ok, "reflected_or_same_half_rejected");
     witness!();
 }
-macro_rules! limit_inst {
-    ($name:ident, $slot:expr, $n:expr) => {
+macro_rules! recv_inst {
+    ($($name:ident = ($mode:expr, $slot:expr, $n:expr, $cut:expr)),*) => {$(
         #[cfg_attr(kani, kani::proof, kani::unwind(34))]
         pub fn $name() {
-            limit_and_roundtrip($slot, $n)
+            recv_datagram($mode, $slot, $n, $cut)
         }
-    };
+    )*};
 }
-limit_inst!(c04_limit56_roundtrip_s0_n4, 0, 4);
-limit_inst!(c04_limit56_roundtrip_s1_n0, 1, 0);
-limit_inst!(c04_limit56_roundtrip_s2_n8, 2, 8);
-limit_inst!(c04_limit56_roundtrip_s3_n1, 3, 1);
+recv_inst!(
+    c02_recv_genuine_s0_n4 = (10, 0, 4, 0), c02_recv_genuine_s1_n1 = (10, 1, 1, 0), c02_recv_genuine_s2_n8 = (10, 2, 8, 0),
+    c02_recv_genuine_s3_n2 = (10, 3, 2, 0),
+    c02_recv_tamper_keyid_s0 = (0, 0, 4, 0), c02_recv_tamper_keyid_s3 = (0, 3, 4, 0),
+    c02_recv_tamper_ctr1 = (1, 1, 4, 0), c02_recv_tamper_ctr2 = (2, 0, 4, 0), c02_recv_tamper_ctr3 = (3, 0, 4, 0),
+    c02_recv_tamper_ctr4 = (4, 2, 4, 0), c02_recv_tamper_ctr5 = (5, 0, 4, 0), c02_recv_tamper_ctr6 = (6, 0, 4, 0),
+    c02_recv_tamper_ctr7 = (7, 3, 4, 0),
+    c02_recv_tamper_ct0 = (8, 0, 4, 0), c02_recv_tamper_ct3 = (8, 0, 4, 3),
+    c02_recv_tamper_tag0 = (9, 1, 4, 0), c02_recv_tamper_tag15 = (9, 1, 4, 15),
+    c02_recv_other_connection = (11, 0, 4, 0),
+    c02_recv_truncated_n8_cut1 = (12, 0, 8, 1), c02_recv_truncated_n8_cut8 = (12, 0, 8, 8), c02_recv_truncated_n4_cut3 = (12, 0, 4, 3),
+    c02_recv_truncated_n4_cut5 = (12, 0, 4, 5), c02_recv_truncated_n8_cut24 = (12, 0, 8, 24)
+);
 
 /// a freshly created slot starts in the requested half, with bytes 1..6 zero and an unconstrained (random) tail,
 /// and with an all-zero replay window
@@ -445,147 +516,7 @@ pub fn c03_all_slots_tick() {
     witness!();
 }
 
-// =====================================================================================================  C02
-/// seal one datagram, let the adversary rewrite one region, deliver: anything but the untouched datagram is dropped.
-/// region: 0 = key-id byte, 1..=7 = counter bytes, 8 = a ciphertext byte, 9 = a tag byte
-fn tamper(region: usize, slot: usize) {
-    let nonce0 = any_nonce();
-    let keyb: [u8; 32] = kani::any();
-    let payload: [u8; 4] = kani::any();
-    let newbyte: u8 = kani::any();
-    let pos: u8 = kani::any();
-    let mut n0 = nonce0.clone();
-    // sender in the upper half, counter fits the transmitted bits (otherwise nothing is accepted anyway, C04)
-    n0.0[0] = 0x80;
-    n0.0[1] = 0;
-    n0.0[2] = 0;
-    n0.0[3] = 0;
-    n0.0[4] = 0;
-    kani::assume(nonce_val(n0.as_bytes()) % (1u128 << 56) != (1u128 << 56) - 1);
-    let algo = &aead::AES_256_GCM;
-    let mut sender = core_with(algo, &[0x22; 32], true, slot);
-    sender.keys[slot] = keyed_slot(algo, &keyb);
-    sender.keys[slot].send_nonce = n0;
-    let mut receiver = core_with(algo, &[0x33; 32], false, 0);
-    receiver.keys[slot] = keyed_slot(algo, &keyb);
-    let mut buf = MsgBuffer::new(8);
-    buf.set_length(4);
-    buf.message_mut().copy_from_slice(&payload);
-    sender.encrypt(&mut buf);
-    let idx = match region {
-        0..=7 => region,
-        8 => 8 + (pos % 4) as usize,
-        _ => 12 + (pos % 16) as usize,
-    };
-    let old = buf.message()[idx];
-    buf.message_mut()[idx] = newbyte;
-    let res = receiver.decrypt(&mut buf);
-    if newbyte != old {
-        assert!(res.is_err());
-        assert!(nonce_val(receiver.keys[slot].seen_nonce.as_bytes()) == 0);
-    } else {
-        assert!(res.is_ok());
-    }
-    vcover!(newbyte != old, "altered");
-    witness!();
-}
-macro_rules! tamper_inst {
-    ($name:ident, $region:expr, $slot:expr) => {
-        #[cfg_attr(kani, kani::proof, kani::unwind(34))]
-        pub fn $name() {
-            tamper($region, $slot)
-        }
-    };
-}
-tamper_inst!(c02_tamper_keyid_s0, 0, 0);
-tamper_inst!(c02_tamper_keyid_s3, 0, 3);
-tamper_inst!(c02_tamper_ctr1, 1, 1);
-tamper_inst!(c02_tamper_ctr2, 2, 0);
-tamper_inst!(c02_tamper_ctr3, 3, 0);
-tamper_inst!(c02_tamper_ctr4, 4, 2);
-tamper_inst!(c02_tamper_ctr5, 5, 0);
-tamper_inst!(c02_tamper_ctr6, 6, 0);
-tamper_inst!(c02_tamper_ctr7, 7, 3);
-tamper_inst!(c02_tamper_ciphertext, 8, 0);
-tamper_inst!(c02_tamper_tag, 9, 1);
-
-/// truncation by k >= 1 bytes of a sealed datagram (down to the 24-byte minimum the receive path accepts) is dropped
-fn truncated(n: usize, cut: usize) {
-    let nonce0 = any_nonce();
-    let keyb: [u8; 32] = kani::any();
-    let payload: [u8; 8] = kani::any();
-    let mut n0 = nonce0.clone();
-    n0.0[0] = 0x00;
-    n0.0[1] = 0;
-    n0.0[2] = 0;
-    n0.0[3] = 0;
-    n0.0[4] = 0;
-    kani::assume(nonce_val(n0.as_bytes()) % (1u128 << 56) != (1u128 << 56) - 1);
-    let algo = &aead::AES_128_GCM;
-    let mut sender = core_with(algo, &keyb, false, 0);
-    sender.keys[0].send_nonce = n0;
-    let mut receiver = core_with(algo, &keyb, true, 0);
-    let mut buf = MsgBuffer::new(8);
-    buf.set_length(n);
-    buf.message_mut().copy_from_slice(&payload[..n]);
-    sender.encrypt(&mut buf);
-    let l = buf.len();
-    buf.set_length(l - cut);
-    let res = receiver.decrypt(&mut buf);
-    assert!(res.is_err());
-    witness!();
-}
-macro_rules! trunc_inst {
-    ($name:ident, $n:expr, $cut:expr) => {
-        #[cfg_attr(kani, kani::proof, kani::unwind(34))]
-        pub fn $name() {
-            truncated($n, $cut)
-        }
-    };
-}
-trunc_inst!(c02_truncated_n8_cut1, 8, 1);
-trunc_inst!(c02_truncated_n8_cut8, 8, 8);
-trunc_inst!(c02_truncated_n4_cut3, 4, 3);
-
-/// a datagram reflected back to its own sender is dropped (any half assignment with opposite ends), and a datagram
-/// sealed for a different connection (different key material, same slot/half/counter state) is dropped
-#[cfg_attr(kani, kani::proof, kani::unwind(34))]
-pub fn c02_reflect_and_cross_connection() {
-    let nonce0 = any_nonce();
-    let keyb: [u8; 32] = kani::any();
-    let otherkey: [u8; 32] = kani::any();
-    let payload: [u8; 4] = kani::any();
-    let half: bool = kani::any();
-    let mut n0 = nonce0.clone();
-    n0.0[0] = if half { 0x80 } else { 0x00 };
-    let algo = &aead::CHACHA20_POLY1305;
-    let mut sender = core_with(algo, &keyb, half, 0);
-    sender.keys[0].send_nonce = n0;
-    // a second connection of the peer: same roles, other key material
-    let mut other = core_with(algo, &otherkey, !half, 0);
-    let mut buf = MsgBuffer::new(8);
-    buf.set_length(4);
-    buf.message_mut().copy_from_slice(&payload);
-    sender.encrypt(&mut buf);
-    let mut copy = buf.clone();
-    // reflected
-    assert!(sender.decrypt(&mut buf).is_err());
-    // cross-connection
-    let mut same = true;
-    let mut i = 0;
-    while i < 32 {
-        if keyb[i] != otherkey[i] {
-            same = false;
-        }
-        i += 1;
-    }
-    let r2 = other.decrypt(&mut copy);
-    if !same {
-        assert!(r2.is_err());
-    }
-    vcover!(!same, "different_keys");
-    witness!();
-}
+// (C02 receiver-side obligations: see recv_datagram above)
 
 // =====================================================================================================  C08
 /// totality of the sealed-datagram receive path of the crypto core: for every datagram length and content, every
@@ -595,7 +526,6 @@ fn core_decrypt_total(len: usize) {
     let min = any_nonce();
     let seen = any_nonce();
     let half: bool = kani::any();
-    let start: u8 = kani::any();
     let mut core = CryptoCore {
         rand: SystemRandom::new(),
         keys: [
@@ -616,7 +546,8 @@ fn core_decrypt_total(len: usize) {
         i += 1;
     }
     let _ = slot;
-    let mut buf = MsgBuffer::new(start as usize);
+    // receive buffers are created with 100 bytes of headroom (cloud.rs SPACE_BEFORE)
+    let mut buf = MsgBuffer::new(100);
     buf.set_length(len);
     buf.message_mut().copy_from_slice(&data[..len]);
     let res = core.decrypt(&mut buf);
